@@ -42,15 +42,14 @@ Proof.
 Qed.
 
 Theorem wf_of_c01 be kind pos len l size :
-  L.wf size (L.view pos len l) -> Forall (fun x => len x <= 64) l ->
+  L.wf size (L.view pos len l) ->
   wf size (map (of_item be kind) (L.view pos len l)).
 Proof.
-  intros Hwf H64. pose proof (view_nodup pos len l size Hwf) as Hnd. destruct Hwf as [Hs Hb].
+  intros Hwf. pose proof (view_nodup pos len l size Hwf) as Hnd. destruct Hwf as [Hs Hb].
   split; [|split].
   - apply Forall_forall. intros s Hin. apply in_map_iff in Hin. destruct Hin as [p [<- Hp]].
     rewrite Forall_forall in Hb. specialize (Hb p Hp).
     unfold L.view in Hp. apply in_map_iff in Hp. destruct Hp as [x [<- Hx]].
-    rewrite Forall_forall in H64. specialize (H64 x Hx).
     unfold sig_ok, s_end, of_item, L.i_start, L.i_len, L.i_end, L.i_h in *. cbn in *. lia.
   - apply sorted_of_strongly. exact Hs.
   - unfold L.view. rewrite !map_map. cbn.
@@ -62,51 +61,55 @@ Proof.
 Qed.
 
 (* every message layout of every reachable state (C01's hypotheses) is a well-formed C02 layout,
-   as long as its signals are at most 64 bits wide (the property's quantifier) *)
+   whatever the width of its signals (a multiplexer may be wider than 64 bits) *)
 Theorem layout_wf_reachable ops m be kind :
   Acme.C07.Proofs.ok_hist_w ops ->
-  Forall (fun x => M1.sz (M1.run ops) x <= 64) (Acme.C01.State.glay (M1.run ops) m) ->
   wf (8 * Acme.C01.State.gbytes (M1.run ops) m) (c02_layout be kind (M1.run ops) m).
 Proof.
-  intros Hw H64. unfold c02_layout, M1.msg_view. apply wf_of_c01; [|exact H64].
+  intros Hw. unfold c02_layout, M1.msg_view. apply wf_of_c01.
   exact (Acme.C01.ProofsT1.t1_layout_wf ops Hw m).
 Qed.
+
+(* the 64-bit bound (a raw value is a uint64) concerns the signals that are decoded only *)
+Definition narrow_decoded (l : list sigl) : Prop := Forall (fun s => s_kind s <> KMux -> narrow s) l.
 
 (* end to end: after every such edit history Decode yields one entry per standard / enum signal in
    layout order, every little-endian value is exactly the payload bits of its signal, and so is
    every big-endian value outside the D08 shape *)
 Theorem decode_reachable ops m be kind data :
   Acme.C07.Proofs.ok_hist_w ops ->
-  Forall (fun x => M1.sz (M1.run ops) x <= 64) (Acme.C01.State.glay (M1.run ops) m) ->
   bytes_ok data -> 8 * Acme.C01.State.gbytes (M1.run ops) m <= nbits data ->
   let l := c02_layout be kind (M1.run ops) m in
   decode l data = map (fun s => (s_id s, sig_raw s data)) (filter not_mux l) /\
-  (forall s, In s l -> be = false -> sig_raw s data = raw_le (s_start s) (s_size s) data) /\
-  (forall s, In s l -> be = true -> d08 s = false -> sig_raw s data = raw_be (s_start s) (s_size s) data) /\
-  (forall s, In s l -> be = true -> one_byte s = true -> sig_raw s data = raw_le (s_start s) (s_size s) data).
+  (forall s, In s l -> narrow s -> be = false -> sig_raw s data = raw_le (s_start s) (s_size s) data) /\
+  (forall s, In s l -> narrow s -> be = true -> d08 s = false -> sig_raw s data = raw_be (s_start s) (s_size s) data) /\
+  (forall s, In s l -> be = true -> one_byte s = true -> sig_raw s data = raw_le (s_start s) (s_size s) data) /\
+  (forall s, In s l -> narrow s -> 0 <= sig_raw s data < 2 ^ s_size s) /\
+  (forall f, In f (gen_filters l) -> 0 <= f_byte f < Acme.C01.State.gbytes (M1.run ops) m).
 Proof.
-  intros Hw H64 Hd Hfit l.
-  pose proof (layout_wf_reachable ops m be kind Hw H64) as Hwf. fold l in Hwf.
+  intros Hw Hd Hfit l.
+  pose proof (layout_wf_reachable ops m be kind Hw) as Hwf. fold l in Hwf.
   assert (Hbe : forall s, In s l -> s_be s = be).
   { intros s Hs. unfold l, c02_layout in Hs. apply in_map_iff in Hs. destruct Hs as [p [<- _]]. reflexivity. }
-  pose proof Hwf as [Hall _]. rewrite Forall_forall in Hall.
-  split; [apply (decode_order _ l data Hwf)|]. split; [|split].
-  - intros s Hs E. apply (decode_le_spec _ s data (Hall s Hs)); [rewrite (Hbe s Hs); exact E | exact Hd].
-  - intros s Hs E D. apply (decode_be_spec _ s data (Hall s Hs)); try assumption. rewrite (Hbe s Hs); exact E.
+  pose proof Hwf as [Hall _]. pose proof Hall as HallF. rewrite Forall_forall in Hall.
+  split; [apply (decode_order _ l data Hwf)|]. split; [|split; [|split; [|split]]].
+  - intros s Hs N E. apply (decode_le_spec _ s data (Hall s Hs) N); [rewrite (Hbe s Hs); exact E | exact Hd].
+  - intros s Hs N E D. apply (decode_be_spec _ s data (Hall s Hs) N); try assumption. rewrite (Hbe s Hs); exact E.
   - intros s Hs E O. apply (decode_be_one_byte_spec _ s data (Hall s Hs)); try assumption. rewrite (Hbe s Hs); exact E.
+  - intros s Hs N. apply (sig_raw_range _ s data (Hall s Hs) N Hd Hfit).
+  - intros f Hf. pose proof (gen_filters_inside _ l f HallF Hf) as [A B]. lia.
 Qed.
 
 (* ... and the masks Filters() publishes for such a layout cover every signal and never share a
    payload bit between two signals (outside the D08 shape) *)
 Theorem masks_reachable ops m be kind :
   Acme.C07.Proofs.ok_hist_w ops ->
-  Forall (fun x => M1.sz (M1.run ops) x <= 64) (Acme.C01.State.glay (M1.run ops) m) ->
   let l := c02_layout be kind (M1.run ops) m in
   (forall s, In s l -> fold_right (fun f a => popcount8 (f_mask f) + a) 0 (sig_filters s) = s_size s) /\
   (forall a b f g, In a l -> In b l -> s_id a <> s_id b -> d08 a = false -> d08 b = false ->
      In f (sig_filters a) -> In g (sig_filters b) -> f_byte f = f_byte g -> Z.land (f_mask f) (f_mask g) = 0).
 Proof.
-  intros Hw H64 l. pose proof (layout_wf_reachable ops m be kind Hw H64) as Hwf. fold l in Hwf.
+  intros Hw l. pose proof (layout_wf_reachable ops m be kind Hw) as Hwf. fold l in Hwf.
   assert (Hu : uniform be l).
   { unfold uniform. apply Forall_forall. intros s Hs. unfold l, c02_layout in Hs.
     apply in_map_iff in Hs. destruct Hs as [p [<- _]]. reflexivity. }
@@ -114,4 +117,57 @@ Proof.
   - intros s Hs. apply (masks_cover _ s (Hall s Hs)).
   - intros a b f g Ha Hb Hne Hda Hdb Hf Hg Hbyte.
     exact (masks_disjoint _ be l a b f g Hwf Hu Hda Hdb Ha Hb Hne Hf Hg Hbyte).
+Qed.
+
+(* ------------------------------------------------------------------ one machine: geometry edits AND byte order
+   C01's operation alphabet contains OByteOrder m big (Message.SetByteOrder; it does not touch the
+   layout).  The byte order of message m after a history is the argument of the last OByteOrder on m
+   (little endian before); by byte_order_propagates (Acme.C02.History) that is the byte order every
+   signal of m stores.  The kind of a signal is read from C01's state.  So for EVERY history over the
+   28 operations - placements, removals, shifts, compaction, resizing, type / enum swaps, enum edits,
+   multiplexer edits and byte-order changes, in any interleaving - that satisfies ok_hist_w: *)
+Definition be_after (ops : list M1.op) (m : nat) : bool :=
+  fold_left (fun b o => match o with M1.OByteOrder m' big => if Nat.eqb m' m then big else b | _ => b end) ops false.
+
+Definition kind_after (st : Acme.C01.State.state) (x : nat) : skind :=
+  match Acme.C01.State.kind st x with
+  | Acme.C01.State.KStd _ => KStandard
+  | Acme.C01.State.KEnum _ => KEnum
+  | Acme.C01.State.KMux _ _ => KMux
+  end.
+
+Definition layout_after (ops : list M1.op) (m : nat) : list sigl :=
+  c02_layout (be_after ops m) (kind_after (M1.run ops)) (M1.run ops) m.
+
+Theorem history_decode ops m data :
+  Acme.C07.Proofs.ok_hist_w ops ->
+  bytes_ok data -> 8 * Acme.C01.State.gbytes (M1.run ops) m <= nbits data ->
+  let l := layout_after ops m in
+  let be := be_after ops m in
+  wf (8 * Acme.C01.State.gbytes (M1.run ops) m) l /\ uniform be l /\
+  decode l data = map (fun s => (s_id s, sig_raw s data)) (filter not_mux l) /\
+  (forall s, In s l -> narrow s -> d08 s = false ->
+     sig_raw s data = if be then raw_be (s_start s) (s_size s) data else raw_le (s_start s) (s_size s) data) /\
+  (forall s, In s l -> narrow s -> 0 <= sig_raw s data < 2 ^ s_size s).
+Proof.
+  intros Hw Hd Hfit l be.
+  pose proof (layout_wf_reachable ops m be (kind_after (M1.run ops)) Hw) as Hwf.
+  destruct (decode_reachable ops m be (kind_after (M1.run ops)) data Hw Hd Hfit) as [D1 [D2 [D3 [_ [D5 _]]]]].
+  split; [exact Hwf|]. split.
+  { unfold uniform. apply Forall_forall. intros s Hs. unfold l, layout_after, c02_layout in Hs.
+    apply in_map_iff in Hs. destruct Hs as [p [<- _]]. reflexivity. }
+  split; [exact D1|]. split; [|exact D5].
+  intros s Hs N D. unfold l, layout_after in Hs. subst be.
+  destruct (be_after ops m) eqn:E.
+  - apply D3; [exact Hs | exact N | reflexivity | exact D].
+  - apply D2; [exact Hs | exact N | reflexivity].
+Qed.
+
+(* every mask Filters() publishes after such a history lies inside the payload of its message *)
+Theorem filters_inside_history ops m f :
+  Acme.C07.Proofs.ok_hist_w ops -> In f (gen_filters (layout_after ops m)) ->
+  0 <= f_byte f < Acme.C01.State.gbytes (M1.run ops) m.
+Proof.
+  intros Hw Hf. pose proof (layout_wf_reachable ops m (be_after ops m) (kind_after (M1.run ops)) Hw) as [Hall _].
+  pose proof (gen_filters_inside _ _ f Hall Hf) as [A B]. lia.
 Qed.
